@@ -27,6 +27,27 @@ TECH = {
 NOTE = {
  "C05": "process kill only (SQLite commit durability trusted); default schedules for the killed run in quick",
 }
+# parts added to the checks after their RULE text was written (details in DESIGN.md section 4)
+MORE = {
+ "C01": "; histories through a failing plan (a globbing sub-plan detached while files come and go, with one or two creator levels), an optional failing writer, a dependency moved from the script to the plan",
+ "C05": "; crash point right after the schema was written; crash images with interrupted steps restarted under two schedules",
+ "C08": "; recycle searches in which a static tree comes back with its recycled declarer (one and two creator levels below it); a product named like the tree",
+ "C09": "; focused searches: a built file that loses its creator and is supplied or declared again (reuse), a step that completes while detached with unchanged outputs (detfin); the succeeded-outputs invariant also for detached steps",
+ "C13": "; the file digest under every composition of short reads and a cancellation between any two reads; override values that spell a second assignment or the section marker",
+ "C14": "; prelude builds before the watch session (a step recycled and skipped), plan edits between watch phases, matches declared static by name, a wildcard directory level, a file replaced by a directory",
+ "C15": "; a cycle closed by the last output; a request of a step that died, handled between its completion and the retirement of its job",
+ "C16": "; concurrent calls of 10 B to 1 MiB over a transport whose drain() yields; every subset of callers cancelled while blocked in drain(), replies in every order",
+ "C11": "; target-restricted builds after every state of the histories",
+ "C20": "; glob() payloads (pattern, matches, rescan from the root), call() with an arguments file and a working directory, get_info() from working directories inside and outside the root",
+ "C03": "; an amendment that names a product and a file under a static tree; inputs removed under running steps",
+ "C12": "; steps blocked in amend() on a tree file at capacity; a running detached step re-declared with another signature",
+ "C19": "; more causes than the summary ranks exactly; a glob match on a product together with a pending step",
+ "C06": "; a source whose static() is dropped while a new step still reads it",
+ "C04": "; a step that completed while detached and is re-created by its repaired creator",
+ "C07": "; outputs in sibling directories under an unmarked parent; a rerun that overwrites its output and fails; an optional failing writer",
+ "C18": "; dependents of the clean selection with steps whose command reads like a path",
+}
+
 checks = []
 for pid in sorted(props):
     level, tech, ref = TECH[pid]
@@ -39,7 +60,7 @@ for pid in sorted(props):
         "replay_cmd_template": "./check replay {path}",
         "engine": tech.split(":")[0].split(" ")[0],
         "level_claimed": {"category": level,
-                          "text": "Bounded exhaustive exploration of the real implementation: " + mod.RULE[:900],
+                          "text": "Bounded exhaustive exploration of the real implementation: " + mod.RULE[:1100] + MORE.get(pid, ""),
                           "design_ref": f"DESIGN.md section {ref}"},
         "level_note": "; ".join(getattr(mod, "ASSUMPTIONS", [])) + ("; " + NOTE[pid] if pid in NOTE else ""),
         "technique": tech,
